@@ -24,6 +24,7 @@ from .paths import EVIDENCE, KNOWN_FINDINGS, LEAN, REPLAYS, REPO, REPO_SRC, VERI
 _MOD = None
 _DRV = None
 _DRV_OK = True
+_INIT_ERR = None
 
 
 def _load(prop: str):
@@ -31,15 +32,19 @@ def _load(prop: str):
 
 
 def _worker_init(prop: str, drv_ok: bool):
-    global _MOD, _DRV, _DRV_OK
+    global _MOD, _DRV, _DRV_OK, _INIT_ERR
     signal.signal(signal.SIGINT, signal.SIG_IGN)
     if str(REPO_SRC) not in sys.path:
         sys.path.insert(0, str(REPO_SRC))
     _MOD = _load(prop)
     _DRV_OK = drv_ok
     _DRV = None
+    _INIT_ERR = None
     if hasattr(_MOD, "worker_init"):
-        _MOD.worker_init()
+        try:
+            _MOD.worker_init()
+        except Exception as e:  # must not escape: a Pool whose initializer raises respawns workers for ever
+            _INIT_ERR = f"worker_init: {type(e).__name__}: {e}\n{traceback.format_exc()[-1500:]}"
 
 
 def _get_driver():
@@ -62,6 +67,8 @@ def _vt_alarm(signum, frame):
 def _run_one(args):
     idx, case = args
     t0 = time.time()
+    if _INIT_ERR:
+        return {"infra": _INIT_ERR, "k": [], "mon": [], "tags": [], "nontrivial": False, "idx": idx, "t": 0.0}
     limit = getattr(_MOD, "CASE_CPU_LIMIT", 120)
     signal.signal(signal.SIGVTALRM, _vt_alarm)
     signal.setitimer(signal.ITIMER_VIRTUAL, limit)
@@ -259,9 +266,16 @@ def _main(prop, mod, tier, seed, replay, nproc, t_start):
     log(f"ran {len(results)} cases ({corpus_n} corpus) in {time.time()-t0:.1f}s")
 
     infra = [r for r in results if "infra" in r]
-    if infra:
+    if infra and not broken:
         log("INFRA ERROR in harness:", infra[0]["infra"])
         return 2
+    if infra:
+        # a translator / proof obligation already broke and (part of) the failing-input search cannot run on
+        # this source shape: the cases that did run are still searched, the broken obligation is reported below
+        log(f"failing-input search could not run on {len(infra)} of {len(results)} cases:", infra[0]["infra"].splitlines()[0])
+        broken.append({"kind": "search-unavailable", "name": "failing-input search (harness could not run on this source)",
+                       "detail": infra[0]["infra"][:1500]})
+        results = [r for r in results if "infra" not in r]
 
     known = load_known(prop)
     k_bad = [r for r in results if r["k"]]
